@@ -341,3 +341,13 @@ def r8_dropped_key_meaning(ctx):
 
 
 RULES += [r8_dropped_key_meaning]
+
+
+def r9_operator_functor(ctx):
+    ctx.rule("C19.r9", "environment containers: operator| / join merge with a join-like functor (join_op, union_op, widening_op), "
+             "operator& / meet with a meet-like one", floor=6)
+    cont.operator_functor_rule(ctx, "C19.r9", ("include/crab/domains/separate_domains.hpp", "include/crab/domains/discrete_domains.hpp",
+                                                "lib/array_adaptive_impl.cpp"))
+
+
+RULES += [r9_operator_functor]
